@@ -10,7 +10,7 @@
    program. *)
 From Coq Require Import List NArith Bool.
 Import ListNotations.
-Require Import Verif.Lib.Wire Verif.Gen.Facts_C11 Verif.Model.C11 Verif.Proofs.C11 Verif.Proofs.C11_gen.
+Require Import Verif.Lib.Wire Verif.Gen.Facts_C11 Verif.Model.C11 Verif.Proofs.C11 Verif.Proofs.C11_gen Verif.Proofs.C11_char.
 
 Theorem C11_generated_permits_is_model : forall L ps p,
   gen_permits L ps p = permits L ps p.
@@ -51,7 +51,7 @@ Proof. exact no_acl_refused. Qed.
 Print Assumptions C11_no_acl_refused.
 
 Theorem C11_child_decides : forall child parents ps p e,
-  find (ace_matches ps p) child = Some e ->
+  find (spec_matches ps p) child = Some e ->
   granted (permits (Some child :: parents) ps p) = decide (Some e).
 Proof. exact child_decides. Qed.
 Print Assumptions C11_child_decides.
@@ -96,7 +96,7 @@ Proof. exact gen_no_acl_refused. Qed.
 Print Assumptions C11_no_acl_refused_generated.
 
 Theorem C11_child_decides_generated : forall child parents ps p e,
-  find (ace_matches ps p) child = Some e ->
+  find (spec_matches ps p) child = Some e ->
   granted (gen_permits (Some child :: parents) ps p) = decide (Some e).
 Proof. exact gen_child_decides. Qed.
 Print Assumptions C11_child_decides_generated.
@@ -130,3 +130,70 @@ Theorem C11_policy_allowed_consistent_generated : forall L p q,
   granted (gen_policy_permits L [q; everyone] p) = true.
 Proof. exact gen_policy_allowed_consistent. Qed.
 Print Assumptions C11_policy_allowed_consistent_generated.
+
+(* ---- the permission test.  [perm_in] runs the functions regenerated on this run from pyramid/util.py
+   (is_nonstr_iter -> gen_is_nonstr_iter) and pyramid/security.py (AllPermissionsList.__contains__ ->
+   gen_all_contains) inside the normalisation idiom; [perm_has] is the property's "permission set contains the
+   permission": a single name contains itself, an iterable its elements, the all-permissions marker everything. *)
+Theorem C11_permission_test_is_containment : forall p v,
+  perm_in_with gen_is_nonstr_iter gen_all_contains p v = perm_has p v.
+Proof. exact perm_in_spec. Qed.
+Print Assumptions C11_permission_test_is_containment.
+
+Theorem C11_normalisation_wraps_exactly_the_non_iterables : forall v,
+  normalise gen_is_nonstr_iter v = match v with PStr _ | PAtom => Wrapped v | _ => Self v end.
+Proof. exact normalise_spec. Qed.
+Print Assumptions C11_normalisation_wraps_exactly_the_non_iterables.
+
+(* without the normalisation a bare str permission is searched for substrings *)
+Theorem C11_unnormalised_str_is_substring_test : forall p s,
+  contains gen_all_contains p (Self (PStr s)) = is_substr p s.
+Proof. exact raw_membership_is_substring. Qed.
+Print Assumptions C11_unnormalised_str_is_substring_test.
+
+(* ---- exact description of the reported principals (no hypothesis on the actions) *)
+Theorem C11_principals_allowed_exact : forall L p q,
+  In q (principals_allowed L p) <-> explicitly_allowed L p q = true.
+Proof. exact principals_allowed_exact. Qed.
+Print Assumptions C11_principals_allowed_exact.
+
+Theorem C11_principals_allowed_exact_generated : forall L p q,
+  In q (gen_principals_allowed L p) <-> explicitly_allowed L p q = true.
+Proof. exact gen_principals_allowed_exact. Qed.
+Print Assumptions C11_principals_allowed_exact_generated.
+
+Theorem C11_principals_allowed_nodup_generated : forall L p, NoDup (gen_principals_allowed L p).
+Proof. exact gen_principals_allowed_nodup. Qed.
+Print Assumptions C11_principals_allowed_nodup_generated.
+
+Theorem C11_reported_has_allow_entry : forall L p q,
+  In q (principals_allowed L p) ->
+  exists e, In e (flatten L) /\ act e = Allow /\ who e = q /\ perm_has p (what e) = true.
+Proof. exact reported_has_allow_entry. Qed.
+Print Assumptions C11_reported_has_allow_entry.
+
+(* C11_allowed_consistent without its hypothesis is false of the faithful model (an ACE whose action is neither
+   constant refuses in permits() and is ignored by principals_allowed_by_permission) *)
+Theorem C11_allowed_consistent_refuted_without_wf :
+  exists L p q, wf_lineage L = false /\ In q (principals_allowed L p) /\ granted (permits L [q; everyone] p) = false.
+Proof. exact allowed_consistent_needs_wf. Qed.
+Print Assumptions C11_allowed_consistent_refuted_without_wf.
+
+(* ---- request.has_permission / security.principals_allowed_by_permission (hand-written model, pinned) *)
+Theorem C11_has_permission_first_match : forall given ctx ps p,
+  hp_granted (has_permission true given ctx ps p)
+  = spec_granted (match given with None => ctx | Some L => L end) ps p.
+Proof. exact has_permission_first_match. Qed.
+Print Assumptions C11_has_permission_first_match.
+
+Theorem C11_has_permission_without_policy : forall given ctx ps p,
+  has_permission false given ctx ps p = NoPolicyAllowed.
+Proof. exact has_permission_without_policy. Qed.
+Print Assumptions C11_has_permission_without_policy.
+
+Theorem C11_sec_principals_allowed_consistent : forall L p q,
+  wf_lineage L = true ->
+  In q (sec_principals_allowed true L p) ->
+  hp_granted (has_permission true None L [q; everyone] p) = true.
+Proof. exact sec_principals_allowed_consistent. Qed.
+Print Assumptions C11_sec_principals_allowed_consistent.
